@@ -248,6 +248,7 @@ def run(ctx: Context) -> None:
 
     # ---------------- (d)/(e) evaluator ------------------------------------------------------------
     _check_eval(ctx, m, cls, allowed, tables)
+    _check_condition_consumer(ctx, idx)
 
 
 # ------------------------------------------------------------------------------------------------
@@ -854,3 +855,73 @@ def _check_subscript(ctx, m, arm, p) -> None:
     if any(isinstance(n, ast.Attribute) and n.attr == "Slice" for n in ast.walk(arm)):
         raise AnalysisError("C20e: the Subscript arm handles ast.Slice but no `slice(lower, upper, step)` call with three plain arguments "
                             "was found (shape unreadable, undecided)")
+
+
+# ================================================================================================ (f)
+
+
+def _check_condition_consumer(ctx: Context, idx) -> None:
+    """A condition means what `if <expr>:` means in Python: its value is consumed through truthiness.  Between the call
+    `self._condition(outcomes)` and the `if` that decides whether the instruction runs, the value may be returned,
+    passed through `bool(...)`, or negated - never compared (`== True`, `is True`, `== 1`): a condition such as `x[0]`
+    with outcome 2 is true in Python and would become false."""
+    ctx.rule("C20f", "the value of a condition is consumed by truthiness only (returned, bool(...), not, if); it is never compared with True/False/1/0 or tested with `is`")
+    icls = idx.find_class("piquasso.api.instruction", "Instruction")
+    fn = icls.methods.get("_is_condition_met")
+    if fn is None:
+        raise AnalysisError("anchor vanished: Instruction._is_condition_met")
+    parents = {}
+    for n in ast.walk(fn.node):
+        for c in ast.iter_child_nodes(n):
+            parents[id(c)] = n
+    calls = [c for c in ast.walk(fn.node) if isinstance(c, ast.Call) and self_attr(c.func) == "_condition"]
+    if not calls:
+        raise AnalysisError("anchor vanished: the call self._condition(outcomes) in Instruction._is_condition_met")
+    aliases = set()
+    for n in ast.walk(fn.node):
+        if isinstance(n, ast.Assign) and len(n.targets) == 1 and isinstance(n.targets[0], ast.Name) and any(n.value is c for c in calls):
+            aliases.add(n.targets[0].id)
+    uses = list(calls) + [n for n in ast.walk(fn.node) if isinstance(n, ast.Name) and n.id in aliases and isinstance(n.ctx, ast.Load)]
+    key = f"{icls.qualname}._is_condition_met|truthiness-only"
+    bad = []
+    for u in uses:
+        cur = u
+        while True:
+            p = parents.get(id(cur))
+            if isinstance(p, ast.Call) and isinstance(p.func, ast.Name) and p.func.id == "bool" and cur in p.args:
+                cur = p
+                continue
+            if isinstance(p, ast.UnaryOp) and isinstance(p.op, ast.Not):
+                cur = p
+                continue
+            break
+        if isinstance(p, ast.Compare):
+            bad.append(p)
+        elif isinstance(p, ast.BinOp):
+            bad.append(p)
+    ctx.obligation("C20f", key, not bad, f"{ctx.relpath(fn.file)}:{fn.line}", uses=len(uses))
+    for b in bad:
+        ctx.violation("C20f", key, fn.file, b.lineno,
+                      f"`{norm(b)[:70]}` compares (or computes with) the value of the condition instead of using its truth value: a condition "
+                      f"like `x[0]` with outcome 2, or `x[0] and x[1]` returning 3, is true in Python but is treated as not met", norm(b)[:100])
+    # the caller decides by truthiness as well
+    sim = idx.find_class("piquasso.api.simulator", "Simulator")
+    n_sites = 0
+    for f in sim.methods.values():
+        ps = {}
+        for n in ast.walk(f.node):
+            for c in ast.iter_child_nodes(n):
+                ps[id(c)] = n
+        for c in ast.walk(f.node):
+            if isinstance(c, ast.Call) and isinstance(c.func, ast.Attribute) and c.func.attr == "_is_condition_met":
+                n_sites += 1
+                p = ps.get(id(c))
+                while isinstance(p, ast.UnaryOp) and isinstance(p.op, ast.Not):
+                    p = ps.get(id(p))
+                ok = isinstance(p, (ast.If, ast.IfExp, ast.While, ast.BoolOp))
+                k2 = f"{f.qualname}|condition-decides-by-truthiness"
+                ctx.obligation("C20f", k2, ok, f"{ctx.relpath(f.file)}:{c.lineno}")
+                if not ok:
+                    ctx.violation("C20f", k2, f.file, c.lineno,
+                                  f"the result of _is_condition_met is used in `{norm(p)[:60]}` rather than as the test of an `if`", norm(p)[:90])
+    ctx.require_floor("call sites of _is_condition_met", n_sites, 1)
